@@ -173,10 +173,16 @@ def signature(res):
 
 def run_planning(E, reqs):
     from gnpy.tools.worker_utils import planning
+    from gnpy.core.elements import Edfa
+    designed = {el.uid: el.effective_gain for el in E.net.nodes() if isinstance(el, Edfa)}
     out = planning(E.net, E.eq, {'path-request': copy.deepcopy(reqs)})
     sigs = {}
     for res in out[5]:
         s = signature(res)
+        # not part of the comparison: did this request drive an amplifier of its private copy into saturation?
+        s['_clamped'] = any(isinstance(el, Edfa) and el.effective_gain < designed[el.uid] - 1e-9
+                            for pth in (res.computed_path, getattr(res, 'reversed_computed_path', None) or [])
+                            for el in pth)
         for rid in res.path_request.request_id.split(' | '):
             sigs[rid] = dict(s, aggregated=res.path_request.request_id if ' | ' in res.path_request.request_id else None)
     return sigs
@@ -225,7 +231,7 @@ def drive(case):
     finally:
         rq.deepcopy = orig
     j21, d21 = snapshot(E2.net)
-    obs['nocopy'] = {'sigs_differ': any(not same_sig(s2.get(i), obs['runs'][0]['sigs'].get(i)) for i in ids)
+    obs['nocopy'] = {'sigs_differ': any(same_sig(s2.get(i), obs['runs'][0]['sigs'].get(i)) is not True for i in ids)
                      if 'exc' not in s2 else None,
                      'net_changed': (j21, d21) != (j20, d20)}
     return obs
@@ -378,6 +384,8 @@ def run(ctx):
         for s in batch['sigs'].values():
             if s.get('aggregated'):
                 ctx.count('aggregated_requests')
+            if s.get('_clamped'):
+                ctx.count('requests_saturating_an_amplifier')
         if batch['exc']:
             ctx.count('batch_exception_' + batch['exc'])
         if obs['nocopy']['net_changed']:
